@@ -134,10 +134,11 @@ def to_coq(c, o):
         elif 'live_exc' in orc:
             out = '(Raises %s %s (expand tab_ %s) %s)' % (
                 ccls(orc['live_exc']['cls']), cexc(orc['live_exc'], sh), sh(crle(orc['live'])), cz(orc['text']))
-        else:       # the task's READY was never attempted
-            out = '(Raises (CPlain 0) (mk_exc (CPlain 0) [] []) [] 0)'
-        reqs.append('(RTask %s %s %s (expand tab_ %s) %s)' % (
-            cz(r['job']), cz(r['i']), out, crle(orc.get('ptb', [])), cz(orc.get('ptext', 0))))
+        else:       # the task's READY was never attempted: a dummy non-empty traceback, so that a
+            #         missing oracle can never make the model predict a crash
+            out = '(Raises (CPlain 0) (mk_exc (CPlain 0) [] []) [mk_fr [] [] 0] 0)'
+        ptb = '(expand tab_ %s)' % crle(orc['ptb']) if orc.get('ptb') else '[mk_fr [] [] 0]'
+        reqs.append('(RTask %s %s %s %s %s)' % (cz(r['job']), cz(r['i']), out, ptb, cz(orc.get('ptext', 0))))
     env = []
     for n, a in enumerate(c['env']):
         if a == 'ok':
@@ -439,6 +440,8 @@ def correspond(res, n):
     idxmap = [i for i, o in enumerate(outs) if 'driver_error' not in o]
     codes = [(idxmap[i], code) for i, code in codes]
     judge(res, cases, outs, codes)
+    # the expected finding D20 last, so that anything else is what gets reported first
+    res.alarms.sort(key=lambda a: a['signature'] == SIG_D20)
 
     kinds, classes, depths, rounds, endings = {}, {}, {}, {}, {}
     trunc = unser = scripted = 0
